@@ -28,6 +28,10 @@ theorem refsOfRule_setLabel (r : Rule) (l : Str) (b : Bool) : refsOfRule (setLab
 theorem isAllConstant_setLabel (r : Rule) (l : Str) : isAllConstant (setLabel r l) = isAllConstant r := rfl
 theorem isStar_setLabel (r : Rule) (l : Str) : isStar (setLabel r l) = isStar r := rfl
 theorem getData_setLabel (env : Env) (r : Rule) (l : Str) (refs : List Str) : getData env (setLabel r l) refs = getData env r refs := rfl
+theorem frameOfStar_setLabel (env : Env) (r : Rule) (l : Str) (refs : List Str) (d : Option Frame) :
+    frameOfStar env (setLabel r l) refs d = frameOfStar env r refs d := by
+  cases d <;> rfl
+
 theorem frameOf_setLabel (env : Env) (r : Rule) (l : Str) (refs : List Str) (d : Option Frame) :
     frameOf env (setLabel r l) refs d = frameOf env r refs d := by
   cases d <;> rfl
@@ -86,7 +90,7 @@ theorem evalStar_relabel (env : Env) (f : Rule â†’ Str) (rules : List Rule) : âˆ
       simp only [setLabel, quotedStep_relabel f rules (evalStar env rules fuel) _ (fun q d p n => ih q (f q) d p n)]
       rfl
     unfold evalStar
-    simp only [refsStar_relabel, isAllConstant_setLabel, isStar_setLabel, finish_setLabel, frameOf_setLabel, hsub, hobj,
+    simp only [refsStar_relabel, isAllConstant_setLabel, isStar_setLabel, finish_setLabel, frameOf_setLabel, frameOfStar_setLabel, hsub, hobj,
       findRule_relabelAll]
     cases hr : refsStar rules (fuel + 1) r with
     | error e => rfl
